@@ -1,4 +1,5 @@
 import BsVerif.Lemmas.Dap
+import BsVerif.Lemmas.DapThreads
 import BsVerif.Gen.DapDispatch
 /-!
 # C12 — the DAP adapter speaks the protocol for any request history
@@ -6,12 +7,17 @@ import BsVerif.Gen.DapDispatch
 Property theorems only.  Models: `BsVerif/Model/Dap.lean` (writer model `Dap.Writer`, session model
 `Dap`), helper lemmas: `BsVerif/Lemmas/Dap.lean`.
 
-All five clauses are proved at full strength, for ALL request histories / ALL schedules of the three
-writers.  Three of them were FALSE of the code as found (`continue` answered twice, sequence numbers taken
-before the transport lock, `initialized` sent after `terminated`); the defects are repaired in the
-repository (`known_findings.txt`: `fixed:` lines), the model mirrors the repaired code, and the former
-counterexamples stay as replays in `corpus/C12/*.req` (and as `#guard` tests below) so that a
-regression is a VIOLATION.
+Models: every arm of `dispatch` (43 commands) with the cancellation bookkeeping (`canceled_request_ids`,
+`canceled_progress_ids`, `consume_cancellation`), the thread-cache diff (`refresh_threads_with_events`) and
+the progress ids.
+
+The five clauses about responses, sequence numbers, lifecycle and silence are proved at full strength, for ALL
+request histories / ALL schedules of the three writers.  Three of them were FALSE of the code as found (`continue`
+answered twice, sequence numbers taken before the transport lock, `initialized` sent after `terminated`); the
+defects are repaired in the repository (`known_findings.txt`: `fixed:` lines), the model mirrors the repaired code,
+and the former counterexamples stay as replays in `corpus/C12/*.req` (and as `#guard` tests below) so that a
+regression is a VIOLATION.  The thread-event clause is still FALSE of the code (relaunch after exit): its full
+statement is a `def …_full : Prop`, with `…_partial` under a named hypothesis and a `…_counterexample`.
 -/
 namespace BsVerif.Dap
 
@@ -66,6 +72,52 @@ theorem C12_one_response (hist : List (Req × Hint)) :
 `corpus/C12/continue-before-launch.req` -/
 def witnessContinueBeforeLaunch : List (Req × Hint) :=
   [({ seq := 1, cmd := .initialize, mutn := .valid }, {}), ({ seq := 2, cmd := .continue_, mutn := .valid }, {})]
+
+/-! ### cancelled requests (`cancel {requestId}` ahead of the request, `consume_cancellation`) -/
+
+/-- the commands whose handlers call `consume_cancellation` -/
+def cancellable : Cmd → Bool
+  | .stackTrace | .evaluate | .readMemory | .disassemble => true
+  | _ => false
+
+/-- an accepted `cancel {requestId: n}` (alone or together with a progress id) records `n` and is answered -/
+theorem C12_cancel_records (s s' : Sess) (r : Req) (h : Hint) (out : List Msg) (hc : r.cmd = .cancel)
+    (hm : r.mutn = .valid) (hp : r.param % 4 = 0 ∨ r.param % 4 = 3) (hs : runStep s r h = some (s', out)) :
+    s'.cancelledReqs.contains (r.param / 4) = true ∧ resps out = [Msg.resp .cancel true r.seq] := by
+  unfold runStep at hs
+  split at hs
+  · injection hs with hs
+    have h1 : (exec r s (fullPlan s r h)).1 = s' := congrArg Prod.fst hs
+    have h2 : (exec r s (fullPlan s r h)).2 = out := congrArg Prod.snd hs
+    have hplan : fullPlan s r h = [.cancelReq (r.param / 4), .respond true, .drain] ∨
+        fullPlan s r h = [.cancelReq (r.param / 4), .cancelProg (r.param / 4), .respond true, .drain] := by
+      unfold fullPlan plan
+      rcases hp with hp | hp <;> simp [hc, hm, hp, runRule]
+    rcases hplan with hplan | hplan <;> rw [← h1, ← h2, hplan] <;>
+      simp only [exec, execAct, resps_append, resps_drain, resps, List.append_nil, List.nil_append, drain_cancelledReqs,
+        insertSet_contains, hc, and_self]
+  · cases hs
+
+/-- a cancellable request whose sequence number was cancelled ahead of time is ANSWERED — exactly one response,
+an error response carrying its `request_seq` and `command` — whatever its arguments, whatever the debuggee does,
+in every session state; and the cancellation is consumed -/
+theorem C12_cancelled_request_answered (s s' : Sess) (r : Req) (h : Hint) (out : List Msg)
+    (hc : cancellable r.cmd = true) (hin : s.cancelledReqs.contains r.seq = true)
+    (hs : runStep s r h = some (s', out)) :
+    resps out = [Msg.resp r.cmd false r.seq] ∧ s'.cancelledReqs.contains r.seq = false := by
+  unfold runStep at hs
+  split at hs
+  · injection hs with hs
+    have h1 : (exec r s (fullPlan s r h)).1 = s' := congrArg Prod.fst hs
+    have h2 : (exec r s (fullPlan s r h)).2 = out := congrArg Prod.snd hs
+    have hin' : r.seq ∈ s.cancelledReqs := by simpa using hin
+    have hplan : fullPlan s r h = [.consumeReq, .respond false, .drain] := by
+      unfold fullPlan plan
+      cases hcmd : r.cmd <;> simp [cancellable, hcmd] at hc <;> simp [hin', runRule]
+    rw [← h1, ← h2, hplan]
+    simp only [exec, execAct, resps_append, resps_drain, resps, List.append_nil, List.nil_append, drain_cancelledReqs]
+    exact ⟨trivial, by simp [removeSet]⟩
+  · cases hs
 
 /-! ## 2. sequence numbers are 1,2,3,… in wire order -/
 
@@ -126,6 +178,67 @@ def witnessInitializeAfterTerminated : List (Req × Hint) :=
    ({ seq := 3, cmd := .terminateThreads, mutn := .missing }, {}),
    ({ seq := 4, cmd := .initialize, mutn := .valid }, {})]
 
+/-! ## 3b. each thread start / exit is announced by its event exactly once and in causal order -/
+
+/-- the diff of `refresh_threads_with_events` is exact: from a duplicate-free cache, `started` is queued for
+precisely the reported threads that are not cached, `exited` for precisely the cached ones that are no longer
+reported, each once; and the new cache is the reported set -/
+theorem C12_thread_refresh_exact (cache tl : List Nat) (t : Nat) :
+    (IEv.ev (.threadStarted t) ∈ refreshEvents cache tl ↔ (t ∈ tl ∧ t ∉ cache)) ∧
+    (IEv.ev (.threadExited t) ∈ refreshEvents cache tl ↔ (t ∈ cache ∧ t ∉ tl)) ∧
+    (cache.Nodup → (refreshEvents cache tl).Nodup) ∧ (∀ u, u ∈ dedup tl ↔ u ∈ tl) := by
+  refine ⟨?_, ?_, ?_, mem_dedup tl⟩
+  · simp [refreshEvents, mem_dedup]
+  · simp [refreshEvents, mem_dedup]
+  · intro hc
+    unfold refreshEvents
+    refine List.nodup_append.mpr ⟨?_, ?_, ?_⟩
+    · exact ((dedup_nodup tl).filter _).map (f := fun t => IEv.ev (.threadStarted t)) (by intro a b hab e; injection e with e; injection e with e; exact hab e)
+    · exact (hc.filter _).map (f := fun t => IEv.ev (.threadExited t)) (by intro a b hab e; injection e with e; injection e with e; exact hab e)
+    · intro a ha b hb
+      obtain ⟨x, _, rfl⟩ := List.mem_map.mp ha
+      obtain ⟨y, _, rfl⟩ := List.mem_map.mp hb
+      intro hab; injection hab with hab; cases hab
+
+/-- FULL statement: for every history the wire is accepted by the thread monitor — `thread started t` only for
+a thread that is not announced, `thread exited t` only for an announced one (no exit without a start, no second
+exit, no second start). -/
+def C12_thread_events_full : Prop :=
+  ∀ hist : List (Req × Hint), ∃ live, threadRun [] (trace {} hist) = some live
+
+/-- PARTIAL (all histories, all debuggee behaviours, under `cleanRelaunch`: the latch is never reset over a
+non-empty thread cache): the wire is accepted by the thread monitor, AND whenever the session goes on and its
+lifecycle is open, the threads announced and not yet exited are exactly the threads the debugger reported to
+the last refresh — the events announced equal the changes of the reported thread list. -/
+theorem C12_thread_events_partial (hist : List (Req × Hint)) (hclean : cleanRelaunch {} hist = true) :
+    ∃ live, threadRun [] (trace {} hist) = some live ∧
+      ((finalSess {} hist).alive = true → (finalSess {} hist).terminated = false →
+        ∀ t, t ∈ live ↔ t ∈ (finalSess {} hist).threadCache) := by
+  obtain ⟨live, e, tb⟩ := trace_thread hist {} [] tb_init hclean
+  refine ⟨live, e, ?_⟩
+  intro ha ht
+  obtain ⟨l, hl, hm⟩ := tb.1.sync ht
+  rw [tb.2 ha] at hl
+  cases hl
+  exact hm
+
+/-- witness: the debuggee exits (`emit_process_end` announces the exit of its thread but keeps it in the cache),
+the client launches again: the first refresh of the new lifecycle announces the exit of the old thread AGAIN -/
+def witnessRelaunchAfterExit : List (Req × Hint) :=
+  [({ seq := 1, cmd := .initialize, mutn := .valid }, {}),
+   ({ seq := 2, cmd := .launch, mutn := .valid }, {}),
+   ({ seq := 3, cmd := .configurationDone, mutn := .valid }, { outcome := .stop "entry", tl := [1] }),
+   ({ seq := 4, cmd := .continue_, mutn := .valid }, { outcome := .exit }),
+   ({ seq := 5, cmd := .launch, mutn := .valid }, {}),
+   ({ seq := 6, cmd := .configurationDone, mutn := .valid }, { outcome := .stop "entry", tl := [2] })]
+
+theorem C12_thread_events_counterexample : ¬ C12_thread_events_full := by
+  intro h
+  obtain ⟨live, hl⟩ := h witnessRelaunchAfterExit
+  have hn : threadRun [] (trace {} witnessRelaunchAfterExit) = none := by decide
+  rw [hn] at hl
+  cases hl
+
 /-! ## 5. a failing request yields an error response, not silence or a dropped connection -/
 
 theorem C12_error_not_silence (s : Sess) (r : Req) (h : Hint) (ha : s.alive = true)
@@ -151,10 +264,10 @@ theorem C12_never_silent (s : Sess) (r : Req) (h : Hint) (ha : s.alive = true) :
 /-- the rule of `run`: when the handler returns `Err`, the last response of the answer is an error
 response for this request, and the session goes on -/
 theorem C12_error_not_silence_run_rule (s : Sess) (r : Req) (h : Hint) (ha : s.alive = true)
-    (he : (plan s.dbg s.bpRecords r h).2 = .err) :
+    (he : (plan s r h).2 = .err) :
     ∃ s' out pre, runStep s r h = some (s', out) ∧ resps out = pre ++ [Msg.resp r.cmd false r.seq] := by
   refine ⟨(exec r s (fullPlan s r h)).1, (exec r s (fullPlan s r h)).2,
-    (respondActs (plan s.dbg s.bpRecords r h).1).map (fun ok => Msg.resp r.cmd ok r.seq), by simp [runStep, ha], ?_⟩
+    (respondActs (plan s r h).1).map (fun ok => Msg.resp r.cmd ok r.seq), by simp [runStep, ha], ?_⟩
   rw [resps_exec]
   simp [fullPlan, he, runRule, respondActs]
 
@@ -164,7 +277,7 @@ theorem C12_error_not_silence_run_rule (s : Sess) (r : Req) (h : Hint) (ha : s.a
 -- continue before launch: one (error) response, no `continued`
 #guard (runHistory {} witnessContinueBeforeLaunch).map (·.map (·.length)) == [some 2, some 1]
 #guard accepts witnessContinueBeforeLaunch
-  [some [.resp .initialize true 1, .event .initialized],
+  [some [.resp .initialize true 1, .event (.q .initialized)],
    some [.resp .continue_ false 2]]
 -- `continue` on a live debuggee: the response and `continued` precede the stop
 #guard (runStep { dbg := .inProgress } { seq := 9, cmd := .continue_, mutn := .valid } { outcome := .stop "breakpoint" }).map (·.2)
@@ -185,10 +298,30 @@ theorem C12_error_not_silence_run_rule (s : Sess) (r : Req) (h : Hint) (ha : s.a
 -- every modelled command is an arm of `dispatch`, `frobnicate` is not, exactly `terminate` and
 -- `disconnect` leave the `run` loop, and the number is taken while the transport is locked
 #guard (allCmds.filter (· != .frobnicate)).all (fun c => Gen.DapDispatch.commands.contains (cmdName c))
+#guard Gen.DapDispatch.commands.all (fun n => allCmds.any (fun c => cmdName c == n))   -- every arm of `dispatch` is modelled
 #guard !Gen.DapDispatch.commands.contains (cmdName .frobnicate)
 #guard Gen.DapDispatch.endsSession == [cmdName .terminate, cmdName .disconnect]
 #guard Gen.DapDispatch.seqUnderLock
 #guard Gen.DapDispatch.latchUnderLock
+
+-- cancel ahead: `cancel {requestId: 7}` (param 28), then request 7 = stackTrace: one error response; cancelled by progress id
+-- (param 4*2+1): the `disassemble` that takes progress id 2 closes its progress and answers with an error
+#guard (runHistory {} [({ seq := 5, cmd := .cancel, mutn := .valid, param := 28 }, {}), ({ seq := 7, cmd := .stackTrace, mutn := .valid }, {})]).map (·.map resps)
+  == [some [.resp .cancel true 5], some [.resp .stackTrace false 7]]
+#guard (runHistory { nextProgress := 2 } [({ seq := 5, cmd := .cancel, mutn := .valid, param := 9 }, {}), ({ seq := 6, cmd := .disassemble, mutn := .valid }, {})]).map (·.map resps)
+  == [some [.resp .cancel true 5], some [.resp .disassemble false 6]]
+#guard cleanRelaunch {} witnessRelaunchAfterExit == false
+#guard cleanRelaunch {} witnessContinueBeforeLaunch
+
+/-- non-vacuity of `C12_thread_events_partial`: a history with a thread started during a step (reported by a later
+`threads`), satisfying `cleanRelaunch`, whose announced set is the reported list -/
+example : cleanRelaunch {} [({ seq := 1, cmd := .launch, mutn := .valid }, {}),
+    ({ seq := 2, cmd := .configurationDone, mutn := .valid }, { outcome := .stop "breakpoint", tl := [1] }),
+    ({ seq := 3, cmd := .next, mutn := .valid }, { outcome := .stop "step" }),
+    ({ seq := 4, cmd := .threads, mutn := .valid }, { tl := [1, 2] })] = true := by decide
+
+/-- non-vacuity of `C12_cancelled_request_answered` -/
+example : cancellable .readMemory = true ∧ ({ cancelledReqs := [4] } : Sess).cancelledReqs.contains 4 = true := by decide
 
 /-- non-vacuity of `C12_error_not_silence`: a live session and a request that must fail -/
 example : ({} : Sess).alive = true ∧ mustFail {} { seq := 7, cmd := .stackTrace, mutn := .valid } = true := by decide
